@@ -10,6 +10,7 @@ import (
 	"verifharness/core"
 	"verifharness/gen"
 	"verifharness/mon"
+	"verifharness/sched"
 )
 
 func init() {
@@ -343,13 +344,15 @@ func seqEnumerate(r *core.Run, L int, clauses string, stride int) {
 type streamCase struct {
 	Stream *gen.Stream `json:"stream"`
 	Chunk  int         `json:"chunk"`
-	Input  []byte      `json:"input,omitempty"`
+	// EOFWithData: the reader returns io.EOF together with the last bytes.
+	EOFWithData bool   `json:"eof_with_data,omitempty"`
+	Input       []byte `json:"input,omitempty"`
 }
 
 // streamEval checks one stream. clauses: "all" (C07), "conservation" (C02).
 func streamEval(r *core.Run, c *streamCase, clauses string) {
 	in := c.Stream.Render()
-	res := resumeAll(in, plainOpts(), nil, c.Chunk, true, c.Stream.NumDumps()+8)
+	res := resumeAllSrc(&sched.Scripted{Data: in, Rest: c.Chunk, FinalWithData: c.EOFWithData}, plainOpts(), true, c.Stream.NumDumps()+8)
 	r.Eval(1)
 	report := func(key, what string) {
 		c2 := *c
@@ -484,6 +487,7 @@ func genStreamCase(r *core.Run, sub uint64, i int) *streamCase {
 			c.Chunk = 37
 		}
 	}
+	c.EOFWithData = i%4 == 2
 	return c
 }
 
